@@ -1,6 +1,7 @@
 /* C03 shim: the three map classes through the SPIF_MAP_* interface; keys and values are spif_str. */
 #include "config.h"
 #include <libast.h>
+extern unsigned int vt_base_level;   /* engine/tracker_shim.c */
 #include <sanitizer/allocator_interface.h>
 
 #define NCLS 3
@@ -67,7 +68,7 @@ static int putstr(size_t *off, spif_obj_t o)
 int c03_init(void)
 {
     int c;
-    libast_debug_level = 0;
+    libast_debug_level = vt_base_level;
     for (c = 0; c < NCLS; c++) { M[c][0] = mk(c); M[c][1] = NULL; if (SPIF_MAP_ISNULL(M[c][0])) return 0; }
     return 1;
 }
